@@ -321,14 +321,14 @@ sys.exit(1 if bad else 0)
 
 def task_condsel(systems):
     """The switching conditions INSTALLED in the conditional solver objects (pyneqsys.ConditionalNeqSys.get_conds, both builders) are, position
-    by position, the conditions of the system's phase-transfer reactions - systems with two and three sparingly soluble phases."""
+    by position, the conditions of the system's phase-transfer reactions - systems with two sparingly soluble phases."""
     from chempy.equilibria import EqSystem
     from chempy._eqsys import NumSysLin, NumSysLog
 
     res = dict(engine="Z", functions=[env.describe(EqSystem.get_neqsys_conditional_chained), env.describe(EqSystem.get_neqsys_chained_conditional),
                                       env.describe(EqSystem._fw_cond_factory), env.describe(EqSystem._bw_cond_factory)],
                obligations=0, discharged=0, violations=[], inconclusive=[], queries=0, paths=0, solver_s=0.0,
-               bounds="%d systems with 2-3 solid phases; all x >= 0, K > 0; both builders, NumSys=(NumSysLin, NumSysLog)" % len(systems))
+               bounds="%d systems with 2 solid phases; all x >= 0, K > 0; both builders, NumSys=(NumSysLin, NumSysLog)" % len(systems))
     tw = None
     for eq_strs in systems:
         es, Ks, keys = build(eq_strs)
@@ -539,8 +539,7 @@ def tasks(tier, seed):
     #  quotients of two coupled dissolved states; not registered)
     multi = [["Ag+ + Br- = AgBr(s)", "Ag+ + Cl- = AgCl(s)"],
              ["AgCl(s) = Ag+ + Cl-", "H2O = H+ + OH-", "Ag+ + Br- = AgBr(s)"]]
-    if tier != "quick":
-        multi.append(["Ag+ + Cl- = AgCl(s)", "Ag+ + Br- = AgBr(s)", "Na+ + Cl- = NaCl(s)"])
+    # (a three-solid system - AgCl(s), AgBr(s), NaCl(s) - did not finish in 400 s either; the thorough tier uses the same systems)
     for i, s_ in enumerate(multi):
         ts.append(dict(id="C08.condsel.%02d" % i, fn="task_condsel", kwargs=dict(systems=[s_]), timeout=1200))
     return ts
